@@ -115,7 +115,11 @@ def run(ck: Check) -> int:
         except Exception:  # noqa: BLE001
             return
         # through the same root mechanism as the glob run (the dir_fd branch of _fs_match is separate code: seeded change C06c)
-        rs, bits = K.run_real_match(G, t, cands, c.pats, fl, None, 'globfilter', c.mode if c.mode in ('root_dir', 'cwd', 'dir_fd') else 'root_dir')
+        # ... and through every way of holding the matcher: the call itself, a compiled object, its pickle / deepcopy copies (seeded change C06h)
+        api = ('globfilter', 'pickled', 'compiled', 'deepcopy', 'globfilter', 'pickled-twice')[stats.get('realpath_cases', 0) % 6]
+        stats['realpath_cases'] = stats.get('realpath_cases', 0) + 1
+        stats['via ' + api] = stats.get('via ' + api, 0) + 1
+        rs, bits = K.run_real_match(G, t, cands, c.pats, fl, None, api, c.mode if c.mode in ('root_dir', 'cwd', 'dir_fd') else 'root_dir')
         m = drv.ask(K.match_line(t, fl, pe, ee, cands))
         if m == 'timeout':
             return
